@@ -406,6 +406,20 @@ func (r *hnswRun) runHistory(g hnswCfg, exact bool, ops []scriptOp, props []stri
 				c.Nontrivial("search-multi")
 			}
 			continue // no dump after a search
+		case "loadempty":
+			// the snapshot of an empty index (Save writes nothing for it), loaded into this used index: a replica
+			// that is handed the snapshot of a partition emptied meanwhile. Nothing may be left of what it held.
+			var buf bytes.Buffer
+			if err := index.NewHnsw(uint(r.dim), r.sp, g.options()...).Save(&buf, false); err != nil {
+				c.Violate(props[0], props[0]+"/save-error", err.Error(), c.History())
+			}
+			if err := r.h.Load(bytes.NewReader(buf.Bytes()), false); err != nil {
+				c.Violate(props[0], props[0]+"/load-error", "Load of an empty index's Save output failed: "+err.Error(), c.History())
+			}
+			r.ref = map[int]refItem{}
+			emit("loadempty")
+			answer("loadempty ok")
+			c.Nontrivial("load-empty-into-used")
 		case "reload":
 			var buf bytes.Buffer
 			if err := r.h.Save(&buf, false); err != nil {
@@ -464,6 +478,7 @@ func runHnsw(c *Ctx) {
 		c.End()
 	}
 
+	corpus := false
 	gen := func(r *Rng, exact bool) {
 		run := &hnswRun{c: c}
 		run.sp, run.spName = newSpace(r.Intn(3))
@@ -554,8 +569,18 @@ func runHnsw(c *Ctx) {
 				ops = append(ops, scriptOp{kind: "srch", vec: vi, k: kk})
 				vi++
 			default:
-				ops = append(ops, scriptOp{kind: "reload", used: r.Intn(2) == 0})
+				if r.Intn(4) == 0 {
+					ops = append(ops, scriptOp{kind: "loadempty"})
+					live = map[int]bool{}
+				} else {
+					ops = append(ops, scriptOp{kind: "reload", used: r.Intn(2) == 0})
+				}
 			}
+		}
+		if corpus { // an emptied index gets one item, loses it again, and is searched
+			ops = []scriptOp{{kind: "ins", id: 1, vec: 0, l: 1, md: "-"}, {kind: "ins", id: 2, vec: 1, l: 0, md: "a=1"}, {kind: "ins", id: 3, vec: 2, l: 2, md: "-"},
+				{kind: "loadempty"}, {kind: "srch", vec: 3, k: 3}, {kind: "ins", id: 4, vec: 4, l: 0, md: "-"}, {kind: "rem", id: 4},
+				{kind: "srch", vec: 5, k: 3}, {kind: "ins", id: 2, vec: 6, l: 1, md: "-"}, {kind: "srch", vec: 7, k: 3}, {kind: "reload", used: true}, {kind: "srch", vec: 3, k: 2}}
 		}
 		label := "wide"
 		if exact {
@@ -565,6 +590,10 @@ func runHnsw(c *Ctx) {
 		run.runHistory(g, exact, ops, props)
 		c.End()
 	}
+	corpus = true
+	gen(NewRng(5), true)
+	gen(NewRng(6), false)
+	corpus = false
 	for i := 0; i < nExact; i++ {
 		gen(rng.Fork(), true)
 	}
